@@ -5,9 +5,7 @@ package main
 
 // C10: after a successful import the stored watermarks dominate every value in the file and every value held before.
 
-//@ spec keyOfHex(s string) [48]byte
-//@ spec trim0x(s string) string
-//@ spec parsed(s string) int
+// (keyOfHex, trim0x, parsed: what encoding/hex, strings.TrimPrefix and strconv.ParseInt read; declared with their externs)
 //@ spec fileKey(d *SlashingProtectionData) [48]byte = keyOfHex(trim0x(d.PublicKey))
 
 //@ func initRules
@@ -53,3 +51,27 @@ package main
 //@ invariant [kp] keyProtection.HighestProposedSlot >= 0 - 1 && keyProtection.HighestAttestedSourceEpoch >= 0 - 1 && keyProtection.HighestAttestedTargetEpoch >= 0 - 1 && (keyProtection.HighestAttestedSourceEpoch == 0 - 1 ==> keyProtection.HighestAttestedTargetEpoch == 0 - 1 && len(protection.Data[_n1].SignedAttestations) == 0)
 //@ invariant [atts] forall j int :: 0 <= j && j < len(protection.Data[_n1].SignedAttestations) ==> keyProtection.HighestAttestedSourceEpoch >= parsed(protection.Data[_n1].SignedAttestations[j].SourceEpoch) && keyProtection.HighestAttestedTargetEpoch >= parsed(protection.Data[_n1].SignedAttestations[j].TargetEpoch)
 //@ invariant [seen] forall j int :: 0 <= j && j < _n ==> keyProtection.HighestProposedSlot >= parsed(protection.Data[_n1].SignedBlocks[j].Slot)
+
+// C11: the export lists, for every key with a record, exactly what the store holds (and reads back as such).
+// one exported entry says what the store holds for its key: a block entry iff a proposal watermark, an attestation
+// entry iff an attestation watermark, with the stored numbers
+//@ spec entryFaithful(d *SlashingProtectionData) bool = d != nil && (wmPropL(bytes(fileKey(d))) == 0 - 1 ==> len(d.SignedBlocks) == 0) && (wmPropL(bytes(fileKey(d))) != 0 - 1 ==> len(d.SignedBlocks) == 1 && d.SignedBlocks[0] != nil && parsed(d.SignedBlocks[0].Slot) == wmPropL(bytes(fileKey(d)))) && (wmAttS(bytes(fileKey(d))) == 0 - 1 ==> len(d.SignedAttestations) == 0) && (wmAttS(bytes(fileKey(d))) != 0 - 1 ==> len(d.SignedAttestations) == 1 && d.SignedAttestations[0] != nil && parsed(d.SignedAttestations[0].SourceEpoch) == wmAttS(bytes(fileKey(d))) && parsed(d.SignedAttestations[0].TargetEpoch) == wmAttT(bytes(fileKey(d))))
+
+//@ func fetchSlashingProtection
+//@ ensures [faithful] result1 == nil ==> result0 != nil && (forall i int :: 0 <= i && i < len(result0.Data) ==> entryFaithful(result0.Data[i]))
+//@ ensures [complete] result1 == nil ==> (forall k [48]byte :: wmPropL(bytes(k)) != 0 - 1 || wmAttS(bytes(k)) != 0 - 1 || wmAttT(bytes(k)) != 0 - 1 ==> (exists i int :: 0 <= i && i < len(result0.Data) && fileKey(result0.Data[i]) == k))
+//@ hint-after Sprintf@2 [pk] len(v.PubKey) == 48 ==> bytes(key48(v.PubKey)) == bytes(v.PubKey)
+//@ hint-after Sprintf@2 [key] len(v.PubKey) == 48 ==> keyOfHex(trim0x(hexOf(bytes(v.PubKey)))) == key48(v.PubKey)
+//@ hint-after append@1 [len] len(result) == len(res.Data) + 1
+//@ hint-after append@1 [last] result[len(res.Data)] == data
+//@ hint-after append@1 [new] fileKey(result[len(res.Data)]) == key48(v.PubKey)
+//@ hint-after append@1 [old] forall i int :: 0 <= i && i < len(res.Data) ==> result[i] == res.Data[i]
+//@ loop #1
+//@ invariant [res] res != nil && fresh(res) && fresh(res.Data) && allocated(res.Data)
+//@ invariant [alloc] forall i int :: 0 <= i && i < len(res.Data) ==> allocated(res.Data[i]) && allocated(res.Data[i].SignedBlocks) && allocated(res.Data[i].SignedAttestations) && (forall j int :: 0 <= j && j < len(res.Data[i].SignedBlocks) ==> allocated(res.Data[i].SignedBlocks[j])) && (forall j int :: 0 <= j && j < len(res.Data[i].SignedAttestations) ==> allocated(res.Data[i].SignedAttestations[j]))
+//@ invariant [nonnil] forall i int :: 0 <= i && i < len(res.Data) ==> res.Data[i] != nil
+//@ invariant [blocks0] forall i int :: 0 <= i && i < len(res.Data) && wmPropL(bytes(fileKey(res.Data[i]))) == 0 - 1 ==> len(res.Data[i].SignedBlocks) == 0
+//@ invariant [blocks1] forall i int :: 0 <= i && i < len(res.Data) && wmPropL(bytes(fileKey(res.Data[i]))) != 0 - 1 ==> len(res.Data[i].SignedBlocks) == 1 && res.Data[i].SignedBlocks[0] != nil && parsed(res.Data[i].SignedBlocks[0].Slot) == wmPropL(bytes(fileKey(res.Data[i])))
+//@ invariant [atts0] forall i int :: 0 <= i && i < len(res.Data) && wmAttS(bytes(fileKey(res.Data[i]))) == 0 - 1 ==> len(res.Data[i].SignedAttestations) == 0
+//@ invariant [atts1] forall i int :: 0 <= i && i < len(res.Data) && wmAttS(bytes(fileKey(res.Data[i]))) != 0 - 1 ==> len(res.Data[i].SignedAttestations) == 1 && res.Data[i].SignedAttestations[0] != nil && parsed(res.Data[i].SignedAttestations[0].SourceEpoch) == wmAttS(bytes(fileKey(res.Data[i]))) && parsed(res.Data[i].SignedAttestations[0].TargetEpoch) == wmAttT(bytes(fileKey(res.Data[i])))
+//@ invariant [complete] forall k [48]byte :: visited()[k] ==> (exists i int :: 0 <= i && i < len(res.Data) && fileKey(res.Data[i]) == k)
